@@ -41,6 +41,14 @@ CHECKS = {
    technique="deterministic simulation: seeded search over histories of 0-4 accepted requests with drawn endings (incl. early ends, drops, split halves, held handles), the peer's GOAWAY at a drawn position, all interleavings; reference drain model (handed out / ended / goaway seen) checked for safety over the event history and for bounded liveness at two exact quiescence points",
    text="A real h3 server accepts 0-4 requests from a scripted client; each ends in a drawn way (normal, resolver dropped, FIN or RESET before HEADERS, RESET after HEADERS, malformed or oversized headers, halves dropped at different times, held or never-resolving until released) while the client's GOAWAY arrives at a drawn point. Handle lifetimes are tracked by drop guards. Safety: whenever accept() reports no more requests, every request handed out before has ended (checked over the ordered event log). Liveness: at exact quiescence, once the GOAWAY has been delivered and every handed-out request has ended, accept() must have reported no more requests - checked before and after the held requests are released. Sampling, not proof.",
    note="Trusted: checks/c09.rs drain model and drop guards, SimQuic, simexec's quiescence detection. A request has ended when the application holds no handle of it any more."),
+ "C10": dict(level="exploration", engine="E1", design_ref="DESIGN.md §5 C10",
+   technique="deterministic simulation: seeded search over limits, field sections sweeping the limit (L-2..L+2), roles, message kinds and the arrival time of the peer's SETTINGS relative to the send call (incl. while send_request waits for stream credit); oracle: accept/refuse decisions vs the RFC 9114 4.2.2 size computed by the reference codec, HEADERS frames measured on the wire, applied peer settings sampled by the simulated transport at the moment the frame is handed over",
+   text="Receive: real h3 server/client configured with limit L receive reference-encoded requests, responses and trailers whose size sweeps the limit; accepted iff size <= L, otherwise a header-too-big outcome on that message only (server: 431 on the wire unless 42 exceeds the limit the client advertised), never a connection error, a neighbouring small message unaffected. Send: the reference peer advertises P in SETTINGS written before, during or after h3's send_request / send_response / send_trailers (send_request is additionally made to wait for stream credit); every HEADERS frame on the wire, measured by the reference decoder, is <= the limit that was applied when h3 handed the frame to the transport (sampled by SimQuic through a probe reading the shared settings), and h3 refuses (nothing written) only sections above the limit in force. Sampling, not proof.",
+   note="Trusted: refs::qpack size rule and codecs, SimQuic's send_data probe, simexec. Limits above 200000 bytes are exercised on the accept side only. SETTINGS applied while the HEADERS write is blocked cannot be honoured and are not demanded."),
+ "C13": dict(level="exploration", engine="E1", design_ref="DESIGN.md §5 C13",
+   technique="deterministic simulation: systematic sweep of the builder-option product (2024 configurations, run index mod 2024) each under a seeded write schedule, and seeded search over received SETTINGS payloads with one deviation, chunkings and delays; oracle: reference SETTINGS parser on the wire, applied values read back through accessors, admissible connection error codes",
+   text="Send: every combination of the client and server builder options over the size grid {0,1,63,64,16383,16384,2^30-1,2^30,2^62-1,2^62,u64::MAX} is set up over SimQuic (partial writes down to 1 byte, pends, scarce stream credit); build() must complete without panicking and the peer's reference parser must see exactly one complete SETTINGS frame, first, with no identifier twice, no HTTP/2-reserved or non-reserved unknown identifier, and exactly the configured values (absent => default; unrepresentable => 2^62-1 or an error from build()). Receive: SETTINGS payloads with drawn entries, forms and order plus at most one deviation (repeated known id, repeated unknown id, HTTP/2-reserved id, truncated entry) are delivered under drawn chunkings after a drawn delay; defaults are in force before, known ids are applied exactly afterwards, repeated known / reserved ids are H3_SETTINGS_ERROR (driver result and close code), a truncated entry is a connection error. Configurations enumerated, schedules sampled.",
+   note="Trusted: refs::frames SETTINGS parser/printer, hook accessors for the two settings fields without a getter, SimQuic, simexec. A repeated unknown identifier may be ignored or rejected."),
  "C14": dict(level="exploration", engine="E1", design_ref="DESIGN.md §5 C14",
    technique="deterministic simulation: seeded search over generated API-call programs, builder configurations and per-call write-acceptance/pend patterns of the transport; history check of the complete per-stream byte logs by a reference RFC 9114 parser",
    text="Generated programs (1-4 exchanges in both roles, empty and multi-chunk buffers, trailers, streams abandoned mid-body, split halves, server shutdown(n) and client shutdown at drawn moments, drawn builder options) run on real h3 endpoints over SimQuic, which accepts writes down to one byte at a time, splits frame headers, pends and withholds stream credit. Afterwards every byte either endpoint wrote on every stream is parsed with the reference codecs: legal uni stream types, SETTINGS first and only allowed frames on the control stream (never finished/reset), only complete HEADERS/DATA/reserved frames in legal order on request streams, length fields consistent, reserved identifiers of the 0x1f*N+0x21 form, no HTTP/2 types or settings, GOAWAY ids non-increasing, DATA payloads concatenating to exactly what send_data was given, HEADERS decoding to what was submitted, and no misuse of the transport traits (overlapping send_data). Sampling, not proof.",
